@@ -1,6 +1,10 @@
 --------------------------- MODULE LabelAccessMC ---------------------------
 (* Model-checking slices of LabelAccess (K-label of DESIGN 6.4) and the     *)
 (* emission of terminal behaviours for replay on real containers.           *)
+(* The check (harness/props/c10.py) runs three slices:                      *)
+(*   reads  - one whole-vector write, then the FULL read set                *)
+(*   write1 - every single write of the alphabet, then the light read set   *)
+(*   write2 - one representative write per access path, then every write    *)
 EXTENDS LabelAccess, Json
 
 CONSTANTS Shard, NShards,
